@@ -1,10 +1,7 @@
 import Woodpile.Driver.Util
 import Woodpile.Model.RoughTlv
-<<<<<<< HEAD
 import Woodpile.Model.RoughTlvApi
-=======
 import Woodpile.Gen.Consts
->>>>>>> main
 
 /-!
 Model drivers for the families `tlv` (C11) and `tlvview` (C12).
